@@ -129,6 +129,15 @@ CHECKS = {
             'Every bounded history is executed through Bundle.run_ics_bundle in a long-lived process and every position compared '
             'with a fresh-interpreter reference; any difference in error, output, label, title, message, correctness or score is '
             'a violation.', '2/C13'),
+    'C14': ('stateless model checking of the real two-thread time-out path under a cooperative scheduler (sys.monitoring LINE points '
+            'in pedal/sandbox/sandbox.py, timeout.py and student code; interposed InterruptableThread.start/run/join/is_alive/'
+            '_async_raise and sandbox lock): every schedule with the timer firing after any k<=K student steps and up to 1 '
+            'pre-emption over all lines / 2 (3 in thorough) over shared-state lines, for busy, printing, exception-swallowing, '
+            'blocking and slow-terminating students, followed by a second execution and a drain of the abandoned thread; plus a '
+            'free-running sanity pass with real threads',
+            'Every interleaving within the stated pre-emption bound and horizon is executed on the implementation; the oracle '
+            '(one timeout feedback, TimeoutError kept, clean patch state, later execution and output unaltered, abandoned thread '
+            'stops) is evaluated at return, after the next execution and at quiescence. Wall-clock latency is not decided.', '2/C14'),
 }
 
 PENDING = ['C02', 'C03', 'C04', 'C05', 'C06', 'C07', 'C08', 'C09', 'C10', 'C11', 'C12', 'C13', 'C14', 'C15',
